@@ -177,6 +177,30 @@ func provablyNonNil(pa core.Path, v ssa.Value) bool {
 	if core.IsNilConst(v) {
 		return false
 	}
+	// a field read back right after it was assigned on this path ( s.err = fmt.Errorf(...); return nil, s.err )
+	if u, ok := v.(*ssa.UnOp); ok && u.Op == token.MUL {
+		if fa, ok := u.X.(*ssa.FieldAddr); ok {
+			var last *ssa.Store
+			done := false
+			pa.Instrs(func(i ssa.Instruction) {
+				if done {
+					return
+				}
+				if i == ssa.Instruction(u) {
+					done = true
+					return
+				}
+				if st, ok := i.(*ssa.Store); ok {
+					if x, ok := st.Addr.(*ssa.FieldAddr); ok && x.Field == fa.Field && x.X == fa.X {
+						last = st
+					}
+				}
+			})
+			if done && last != nil && last.Val != v {
+				return provablyNonNil(pa, last.Val)
+			}
+		}
+	}
 	all := true
 	for _, s := range core.Sources(v) {
 		ok := false
@@ -201,7 +225,33 @@ func provablyNonNil(pa core.Path, v ssa.Value) bool {
 		return true
 	}
 	// or the path took the "v != nil" edge
-	return pathEstablishes(pa, core.NonNilFact(func(x ssa.Value) bool { return valIs(x, v) || x == v }))
+	return pathEstablishes(pa, core.NonNilFact(func(x ssa.Value) bool { return valIs(x, v) || x == v || sameFieldLoadOnPath(pa, x, v) }))
+}
+
+// sameFieldLoadOnPath: a and b are two loads of the same field of the same object ( if s.err != nil { return nil, s.err } — go/ssa
+// has no common subexpression elimination), and the path does not store to that field.
+func sameFieldLoadOnPath(pa core.Path, a, b ssa.Value) bool {
+	fieldOf := func(v ssa.Value) *ssa.FieldAddr {
+		u, ok := v.(*ssa.UnOp)
+		if !ok || u.Op != token.MUL {
+			return nil
+		}
+		fa, _ := u.X.(*ssa.FieldAddr)
+		return fa
+	}
+	fa, fb := fieldOf(a), fieldOf(b)
+	if fa == nil || fb == nil || fa.X != fb.X || fa.Field != fb.Field {
+		return false
+	}
+	stored := false
+	pa.Instrs(func(i ssa.Instruction) {
+		if st, ok := i.(*ssa.Store); ok {
+			if x, ok := st.Addr.(*ssa.FieldAddr); ok && x.Field == fa.Field && x.X.Type() == fa.X.Type() {
+				stored = true
+			}
+		}
+	})
+	return !stored
 }
 
 func anyFunc(p *ssa.Package) *ssa.Function {
